@@ -48,6 +48,13 @@ TRANSPARENT = {
 }
 
 
+# calls whose result is Ok/Some exactly when their first argument is Ok/Some
+VARIANT_PRESERVING = {
+    TRY_BRANCH, "core::result::Result::<T, E>::map_err", "core::result::Result::<T, E>::map",
+    "core::option::Option::<T>::ok_or", "core::option::Option::<T>::ok_or_else", "core::option::Option::<T>::map",
+}
+
+
 class Place:
     __slots__ = ("l", "p")
 
@@ -720,7 +727,7 @@ class Fn:
         """Variant edges whose scrutinee derives from `src_local` (through moves, Try::branch,
         Poll::Ready payloads).  Names are normalised: Continue->Ok/Some is reported as 'Continue'
         plus the alias 'ok'; Break->'err'.  Returns list of (switch_block, adt, {name: target})."""
-        der = self.derived_locals([src_local], call_filter=lambda t: t["f"].get("path") in (TRY_BRANCH,))
+        der = self.derived_locals([src_local], call_filter=lambda t: t["f"].get("path") in VARIANT_PRESERVING)
         out = []
         for (b, place, adt, m, els) in self.variant_edges():
             if place.l in der:
